@@ -163,3 +163,28 @@ def check_mean_interval(chk, pid, key, where, sm, im, cm, paths, kind, level, ce
     chk.ob(key, 'E3+E4 formula', desc_prefix, not bad, '; '.join(bad[:2]), where,
            sample={'obligation': key, 'centre': T.show(centre)[:80], 'se': T.show(se)[:120], 'nu': T.show(nu)[:60], 'q': T.show(q)})
     return not bad
+
+
+def tz_paths(nf, paths, dom, nu):
+    """Split the feasible paths of a mean/comparison producer into the Student-t path
+    (nu below the constant threshold) and the normal path; raises Unsupported otherwise."""
+    out = {}
+    for p, residual in prune(paths, dom):
+        if p.unknowns:
+            raise Unsupported('unmodelled callee %s' % p.unknowns[0][0])
+        th = threshold_literal(nf, residual, nu)
+        if th is None:
+            raise Unsupported('undecided guard %s' % [T.show(a)[:80] for a, _ in residual][:2])
+        if th[1] in out:
+            raise Unsupported('two paths on one side of the threshold')
+        out[th[1]] = p
+    if set(out) != {True, False}:
+        raise Unsupported('expected a t path and a normal path, got %s' % sorted(out))
+    return out
+
+
+def crit_atoms(term):
+    """All inverse_cdf call sub-terms of a term."""
+    out = []
+    T.walk(term, lambda t: out.append(t) if (t[0] == 'call' and t[1] == 'inverse_cdf') else None)
+    return out
